@@ -38,8 +38,7 @@ def run_property(prop: str, tier: str, repo: str, seed: int, quiet: bool = False
 def main(argv=None) -> int:
     ap = argparse.ArgumentParser(prog='check')
     ap.add_argument('prop', nargs='?')
-    ap.add_argument('--tier', default=os.environ.get('VERIF_TIER') or 'quick',
-                    choices=['quick', 'thorough'])
+    ap.add_argument('--tier', default=None, choices=['quick', 'thorough'])
     ap.add_argument('--repo', default='/repo')
     ap.add_argument('--replay')
     ap.add_argument('--setup', action='store_true')
@@ -52,8 +51,9 @@ def main(argv=None) -> int:
         seed = int(os.environ.get('VERIF_SEED', '0'))
     except ValueError:
         seed = 0
-    if os.environ.get('VERIF_TIER') in ('quick', 'thorough'):
-        args.tier = os.environ['VERIF_TIER']
+    if args.tier is None:       # an explicit --tier wins over the environment
+        args.tier = os.environ.get('VERIF_TIER') if os.environ.get('VERIF_TIER') in ('quick', 'thorough') \
+            else 'quick'
 
     if args.setup:
         from . import setup as setup_mod
@@ -95,6 +95,11 @@ def main(argv=None) -> int:
         return 0
     if args.tier == 'thorough':
         code, ck = run_property(args.prop, 'thorough', args.repo, seed)
+        if code != 0:
+            # the tree itself does not pass: self-validation of the rules on variants of a
+            # violating tree would be meaningless (every 'equivalent' variant inherits the hit)
+            print(f"{args.prop} selftest: skipped (the analysed tree does not pass)")
+            return code
         from selftest import runner
         st = runner.for_property(args.prop, args.repo, args.jobs, ck)
         return code if code else st
